@@ -1,5 +1,5 @@
 #!/usr/bin/env python3
-"""tools/mutation_sweep.py <copy dir> <out.jsonl> [--per-file N] [--seed S] [--shard k/n] [--files glob…]
+"""tools/mutation_sweep.py <copy dir> <out.jsonl> [--per-file N] [--seed S] [--shard k/n] [--unanchored] [--files glob…]
 
 Systematic complement to the independently seeded changes: one-token mutants of the NON-TEST source the
 properties are anchored in. Runs entirely in a private copy made by tools/mk_agent_copy.sh (<copy dir> holds
@@ -34,6 +34,26 @@ for p in props:
         if f.startswith("packages/"):
             continue  # the contracts' own tests link the registry copy of white-whale-std
         file_props.setdefault(f, []).append(p["id"])
+
+if "--unanchored" in args:
+    # third sweep: the NON-anchored non-test sources (dispatch, queries, receive hooks, factory update paths …),
+    # judged by every property anchored somewhere in the same contract crate
+    crate_props = {}
+    for f, ids in file_props.items():
+        crate = f.split("/src/")[0]
+        crate_props.setdefault(crate, set()).update(ids)
+    anchored = set(file_props)
+    file_props = {}
+    for path in glob.glob(os.path.join(REPO, "contracts", "**", "src", "**", "*.rs"), recursive=True):
+        f = os.path.relpath(path, REPO)
+        base = os.path.basename(f)
+        if f in anchored or "/tests/" in f or "/bin/" in f or "/sim/" in f or "mock" in f:
+            continue
+        if base in ("error.rs", "err.rs", "lib.rs", "mod.rs", "response.rs", "migrations.rs", "msg.rs") or base.startswith("migrate"):
+            continue
+        crate = f.split("/src/")[0]
+        if crate in crate_props:
+            file_props[f] = sorted(crate_props[crate])
 
 RULES = [
     (r"<=", "<"), (r"(?<![<\-=!>])<(?![=<])(?=\s)", "<="), (r">=", ">"), (r"(?<![>\-=])\s>(?![=>])\s", " >= "),
